@@ -86,10 +86,39 @@ def _ty(t):
         return None
 
 
+def cursor_invariants(path, e):
+    """start <= cursor <= end for every raw-pointer cursor struct whose fields occur in the site's goal or in the guards (wherever the
+    struct lives: a parameter, a field, a value handed back by an opaque call)"""
+    terms = [norm(c) for c, _, _ in path.pc]
+    for k in ("a", "b", "index", "len"):
+        if e.get(k) is not None:
+            terms.append(norm(e[k]))
+    for a in e.get("args") or []:
+        terms.append(norm(a))
+    groups = {}
+    for t in sym.subterms(tuple(terms)):
+        if not t:
+            continue
+        if t[0] == "getf" and t[2] in ("cursor", "end", "start"):
+            groups.setdefault(("g", t[1]), {})[t[2]] = t
+        elif t[0] == "init" and t[1][0] == "F" and t[1][2] in ("cursor", "end", "start"):
+            groups.setdefault(("i", t[1][1]), {})[t[1][2]] = t
+    out = []
+    for key, fs in groups.items():
+        par = key[1]
+        mk = (lambda f: ("getf", par, f)) if key[0] == "g" else (lambda f: ("init", ("F", par, f)))
+        cur, end, start = mk("cursor"), mk("end"), mk("start")
+        if "cursor" in fs or "end" in fs:
+            out.append(lin.ge(end, cur))
+        if "start" in fs:
+            out.append(lin.ge(cur, start))
+    return out
+
+
 def facts_before(path, e, hyps=()):
     """facts that hold when event e is reached"""
     limit = e.get("pc", len(path.pc))
-    facts = list(hyps)
+    facts = list(hyps) + cursor_invariants(path, e)
     nes = []
     lens = set()
     for cond, truth, kind in path.pc[:limit]:
